@@ -446,7 +446,9 @@ func TestSmallScope(t *testing.T) {
 			reqs = append(reqs, rt.Req{M: "GET", P: p})
 		}
 		c := Case{Regs: regs, Reqs: reqs}
+		evid.Inflight("routeset", c)
 		out := evid.Protect(func() evid.Outcome { return checkCaseTreeOnly(c) })
+		evid.InflightDone()
 		bulk.Add(show(regs), out.NonTrivial, out.Classes...)
 		if out.Violation != "" {
 			// shrink the request list to the failing one for the replay file
